@@ -18,6 +18,13 @@ void *memchr(const void *s, int c, size_t n) {
 #define IS(c, set3) ((c) == set3[0] || (c) == set3[1] || (c) == set3[2])
 static uint8_t text[TEXT_MAX];
 static size_t tn;
+/* replay variables (DESIGN 3.5): the assembled text / the query string, little endian in 64-bit words; plain copies read back
+ * from the counterexample trace and handed to replay/uri_replay.c, no part in any obligation */
+size_t r_tn, r_n;
+uint64_t r_tw0, r_tw1, r_tw2, r_q;
+#define R_PACK(a, from, cnt, i) ((i) < (cnt) ? ((uint64_t)(a)[(from) + (i)] << (8 * (i))) : (uint64_t)0)
+#define R_WORD(a, from, cnt) (R_PACK(a, from, cnt, 0) | R_PACK(a, from, cnt, 1) | R_PACK(a, from, cnt, 2) | R_PACK(a, from, cnt, 3) | \
+                              R_PACK(a, from, cnt, 4) | R_PACK(a, from, cnt, 5) | R_PACK(a, from, cnt, 6) | R_PACK(a, from, cnt, 7))
 static void put(uint8_t c) { __CPROVER_assume(tn < TEXT_MAX); text[tn++] = c; }
 /* appends a component of symbolic length <= max whose bytes avoid the given characters; returns its length */
 static size_t put_comp(size_t max, bool no_colon, bool no_slash, bool no_qmark, bool no_at, bool no_rbr, bool digits) {
@@ -72,6 +79,7 @@ void h_parse_assembled(void) {
     /* an authority must not be completely empty together with an empty rest (MALFORMED by design) */
     __CPROVER_assume(auth_len > 0 || has_path || has_q);
 
+    r_tn = tn; r_tw0 = R_WORD(text, 0, 8); r_tw1 = R_WORD(text, 8, 8); r_tw2 = R_WORD(text, 16, TEXT_MAX - 16);
     struct aws_uri u;
     memset(&u, 0, sizeof u);
     u.uri_str.buffer = text; u.uri_str.len = tn; u.uri_str.capacity = TEXT_MAX; u.uri_str.allocator = NULL;
@@ -126,6 +134,7 @@ void h_query_bounded(void) {
     uint8_t q[QN + 1];
     size_t n = nondet_size_t(); __CPROVER_assume(n <= QN);
     struct aws_byte_cursor qc = {.ptr = q, .len = n};
+    r_n = n; r_q = R_WORD(q, 0, QN);
     /* reference: split on '&', drop empty pieces, split each at its first '=' */
     size_t ko[QN], kl[QN], vo[QN], vl[QN], m = 0;
     size_t start = 0;
